@@ -117,6 +117,29 @@ def run(case: dict, ctx) -> dict:
             cnt["vmx_bus_unit_collisions"] = cnt.get("vmx_bus_unit_collisions", 0) + sum(1 for s in addr.values() if len(s) > 1)
             nontrivial += int(bool(disks) and any(not d["disk"] for d in devices.values()))
             sample = sample or {"syntax": "vmx", "disks": disks, "devices": len(devices), "text_head": text[:200]}
+            if rep == 0:
+                # the same configuration inside an encrypted VMX: before unlocking the devices are not visible, after unlocking
+                # (on the same object, also when the list was already asked for) the list is the full one
+                from vf.writers import vmxcrypt as wvx
+
+                dkey = bytes(rng.randrange(256) for _ in range(32))
+                blob, p = wvx.phrase_pair(rng, "pw", dkey, cipher="AES-256", mac="HMAC-SHA-1", kdf="PBKDF2-HMAC-SHA-1", rounds=3, salt=bytes(rng.randrange(256) for _ in range(16)))
+                enc = wvx.vmx_text(wvx.keysafe_text([wvx.pair_text(blob, p)]), wvx.seal(dkey, text.encode(), "HMAC-SHA-1", bytes(rng.randrange(256) for _ in range(16))),
+                                   ['displayName = "sealed"'])
+                oe = call(lambda: VMX.parse(enc))
+                if oe.ok:
+                    ve = oe.value
+                    before = call(ve.disks) if rng.random() < 0.7 else None
+                    un = call(ve.unlock_with_phrase, "pw")
+                    after = call(ve.disks)
+                    cnt["encrypted_vmx_disk_lists"] = cnt.get("encrypted_vmx_disk_lists", 0) + 1
+                    if before is not None and before.ok and before.value:
+                        res["viol"].append({"what": "a locked VMX reported disks that only exist inside the encrypted part", "mech": MECH, "detail": {"got": before.value}})
+                        break
+                    if not un.ok or not after.ok or after.value != disks:
+                        res["viol"].append({"what": "VMX disk list after unlocking is not exactly the hard disks' backing files", "mech": MECH,
+                                            "detail": {"got": after.value if after.ok else after.brief(), "exp": disks, "asked_before_unlock": before is not None, "unlock": un.brief()}})
+                        break
         elif syn == "ovf":
             from dissect.hypervisor.descriptor.ovf import OVF
 
